@@ -9,6 +9,8 @@ import json, os, re, shutil, subprocess, sys, tempfile
 
 HERE = os.path.dirname(os.path.dirname(os.path.abspath(__file__)))
 REPO = os.environ.get("VERIF_REPO", "/repo")
+RS_TARGET = os.environ.get("VERIF_MUT_RS_TARGET") or "/tmp/ts-verif-mut-rs-target-%d" % os.getpid()
+WITNESS_TARGET = "/tmp/ts-verif-mut-witness-target-%d" % os.getpid()
 sys.path.insert(0, os.path.join(HERE, "engines"))
 sys.path.insert(0, os.path.join(HERE, "engines", "rules"))
 CRATES = ["tree_sitter_cli", "tree_sitter_loader", "tree_sitter_generate", "tree_sitter_highlight", "tree_sitter"]
@@ -65,7 +67,7 @@ def main():
             else:
                 open(fp, "w").write(s.replace(body, new, 1))
                 env = dict(os.environ, VERIF_REPO=scratch, VERIF_OUT=scratch + "/.out", VERIF_MUTANT="1", VERIF_CACHE=scratch + "/.cache",
-                           VERIF_RS_TARGET="/tmp/ts-verif-mut-rs-target", VERIF_WITNESS_TARGET="/tmp/ts-verif-mut-witness-target")
+                           VERIF_RS_TARGET=RS_TARGET, VERIF_WITNESS_TARGET=WITNESS_TARGET)
                 r = subprocess.run([os.path.join(HERE, "check"), p, "quick"], env=env, stdout=subprocess.PIPE, stderr=subprocess.STDOUT, text=True)
                 rep = os.path.join(scratch, ".out", "reports", p)
                 keys = [json.load(open(os.path.join(rep, f)))["key"] for f in os.listdir(rep)] if os.path.isdir(rep) else []
@@ -81,7 +83,7 @@ def main():
                 print("FALSE-ALARM %s %s: rename `%s` → %s" % (p, fname, nm, detail), flush=True)
         finally:
             shutil.rmtree(scratch, ignore_errors=True)
-    shutil.rmtree("/tmp/ts-verif-mut-rs-target", ignore_errors=True)
+    shutil.rmtree(RS_TARGET, ignore_errors=True)
     print("rust rename sweep result:", counts)
     return 1 if bad else 0
 
